@@ -168,6 +168,13 @@ func vRunAdapters(bh *vABehaviour) (out vAOut) {
 				src.script = append(src.script, [2]interface{}{int(st.Src[0].(float64)), st.Src[1].(string)})
 			case "SnkPlan":
 				snk.script = append(snk.script, [2]interface{}{int(st.Snk[0].(float64)), st.Snk[1].(string)})
+			case "BurstNext":
+				// the source hands out SStart pieces of SLen bytes; one Next needs (nearly) all of them
+				for k := 0; k < st.SStart; k++ {
+					src.script = append(src.script, [2]interface{}{st.SLen, "nil"})
+				}
+				p, err := rd.Next(st.N)
+				checkRead(p, err)
 			case "Next":
 				p, err := rd.Next(st.N)
 				checkRead(p, err)
